@@ -39,7 +39,7 @@ func init() {
 	register(&Prop{
 		ID:    "C15",
 		Level: "exploration",
-		Rule:  "VERIF_SEED-generated histories (quick 300 x 40 ops, thorough 5000 x 120 ops) over pools of 1-4 recipes of both kinds sharing word lists, constructed/preset separator functions and RequireSets backing arrays; ops: Generate (scripted stream), Entropy, Alphabet, SuccessProbability, separator call, caller-side updates of Length / flags / custom strings / in-place edit of the RequireSets backing array / SeparatorChar / SeparatorFunc / Capitalize / list swap, and changes of the process environment (a panel of locale and debugging variables plus every variable the library was observed to read: cmd/envprobe under -test.testlogfile). After every call the whole pool is deep-compared with its snapshot; every call is re-executed on a fresh recipe in a fresh child process started from yet another environment and the results compared. evaluations = API calls made in histories + replays; distinct_nontrivial = distinct (current field values, call, script) triples that were preceded by at least one other call",
+		Rule:  "VERIF_SEED-generated histories (quick 300 x 40 ops, thorough 5000 x 120 ops) over pools of 1-4 recipes of both kinds sharing word lists, constructed/preset separator functions and RequireSets backing arrays; ops: Generate (scripted stream), Entropy, Alphabet, SuccessProbability, separator call, caller-side updates of Length / flags / custom strings / in-place edit of the RequireSets backing array / SeparatorChar / SeparatorFunc / Capitalize / list swap, and changes of the process environment (a panel of locale and debugging variables plus every variable the library was observed to read: cmd/envprobe under -test.testlogfile). Now and then a call is cut short by a failing source (the caller recovers) or repeated with a source that blocks for 300 ms, and the caller reuses the slice a list was built from. After every call the whole pool is deep-compared with its snapshot; every call is re-executed on a fresh recipe in a fresh child process started from yet another environment and the results (including the number of stream bytes consumed) compared; returned passwords and errors are re-read at the end; a call that does not return is reported only when its goroutine is seen twice in the same lock/channel wait inside the library. evaluations = API calls made in histories + replays; distinct_nontrivial = distinct (current field values, call, script) triples that were preceded by at least one other call",
 		Assumptions: []string{
 			"the reference for history independence is the implementation itself on the trivial history (fresh recipe, fresh process); no semantics are assumed",
 			"wordlist results are compared as (word index, capitalised, separator) choice records because list order is fixed per construction",
